@@ -270,9 +270,14 @@ class Prover:
         out.append(("le", lin_add(l, lin_const(v), -1)))
         out.append(("le", lin_add(lin_const(v), l, -1)))
 
+    TWO_VARIANT = ("core::option::Option", "core::result::Result", "core::ops::control_flow::ControlFlow")
+
     def decompose_ne(self, D, v, dty, out):
         if D[0] == "discr":
             out.append(("notvariant", D[1], v))
+            tk = self.an.vtype.get(D[1])
+            if tk is not None and tk["k"] == "adt" and tk["path"] in self.TWO_VARIANT and v in (0, 1):
+                out.append(("variant", D[1], 1 - v))
             return
         out.append(("nec", D, v))
 
